@@ -19,6 +19,7 @@ Code(c) == CASE c = "chainInput"    -> "INT-01"   \* chain k input = output of c
              [] c = "chainTime"     -> "INT-02"   \* all aggregation chains carry one time
              [] c = "calInput"      -> "INT-03"   \* calendar input = aggregation root
              [] c = "calAggrTime"   -> "INT-04"   \* calendar aggregation time = chains' time
+             [] c = "calAggrTimeAbsent" -> "INT-04" \* the calendar chain has NO aggregation-time element (it then defaults to the publication time) although the chains' time differs
              [] c = "calShape"      -> "INT-05"   \* time derived from calendar shape = its aggregation time
              [] c = "calShapeNone"  -> "INT-05"   \* the link directions are the shape of NO leaf of the calendar tree of the publication time (e.g. surplus links at
                                                 \* the leaf end): the registration time cannot be derived at all -- inconclusive with the same code, never OK
@@ -57,7 +58,10 @@ PadValid(p) == IF p.present
 (* context, KSI_Signature_parseWithPolicy with a caller's context (the last three only tell OK from not-OK).  C02 replays every       *)
 (* document / level context through all of EntryPoints.                                                                              *)
 EntryPoints == {"verifier", "withPolicyArgs", "withPolicyCtx", "parseWithPolicy"}
-Violated(s) == {v.c : v \in s.viol} \cup (IF \E p \in s.pads : ~PadValid(p) THEN {"padding"} ELSE {})
+(* benign deviations from the canonical form: listed like violations in s.viol (they change how the signature is built), but no condition is violated *)
+(*   calAggrOmittedOk: the calendar chain omits its aggregation-time element AND the signature was issued in the publication second                   *)
+Benign == {"calAggrOmittedOk"}
+Violated(s) == ({v.c : v \in s.viol} \ Benign) \cup (IF \E p \in s.pads : ~PadValid(p) THEN {"padding"} ELSE {})
                \cup (IF s.doc = "digest" THEN {"docHash"} ELSE {}) \cup (IF s.doc = "alg" THEN {"docAlg"} ELSE {})
                \cup (IF s.level = "over" \/ (s.rfc /\ s.level = "ok") THEN {"docLevel"} ELSE {})
 Has(s, c) == c \in Violated(s)
@@ -92,7 +96,7 @@ RuleOut(s, r) ==
       [] r = "CalendarHashChainDoesNotExist" -> Present(~s.cal)
       [] r = "CalendarHashChainExistence" -> Present(s.cal)
       [] r = "CalendarHashChainInputHashVerification" -> Unless(s, "calInput")
-      [] r = "CalendarHashChainAggregationTime" -> Unless(s, "calAggrTime")
+      [] r = "CalendarHashChainAggregationTime" -> IF Has(s, "calAggrTimeAbsent") THEN Fail("calAggrTimeAbsent") ELSE Unless(s, "calAggrTime")
       [] r = "CalendarHashChainRegistrationTime" -> IF Has(s, "calShapeNone") THEN [rc |-> "OK", res |-> "NA", code |-> Code("calShapeNone")] ELSE Unless(s, "calShape")
       [] r = "CalendarChainHashAlgorithmObsoleteAtPubTime" -> OK
       [] r = "SignatureDoesNotContainPublication" -> Present(s.anchor # "pub")
